@@ -187,6 +187,14 @@ def run_property(prop, tier, seed, mods, jobs=16, only='', rebaseline=False, t0=
                 entry['why'] = ('exception raised only under the interpreter; the native run of the proposed input '
                                 'returns normally (engine limitation): ' + label)
                 undecided.append(entry)
+            elif label.split(':')[0] == 'no-unexpected-exception' and label.split(':')[-1] in (
+                    'TypeError', 'AttributeError', 'NameError', 'NotImplementedError') and not any(
+                    (o.get('cex') or {}).get('confirmed') for o in failing) and not sampled:
+                # exceptions of these kinds raised under the interpreter and not reproduced by any native run are, as a
+                # rule, limits of the engine's models (an operation a model object does not support): undecided
+                entry['why'] = ('raised only under the interpreter, no native run reproduces it (engine model '
+                                'suspected): ' + label)
+                undecided.append(entry)
             elif any(o['verdict'] == 'sat' for o in failing):
                 whys = ' '.join(str((o.get('cex') or {}).get('why', '')) for o in failing)
                 if 'no native replay' in whys or 'opaque' in whys:
